@@ -619,7 +619,17 @@ func (e *Engine) genFunction(fn *ssa.Function) (fc *fnCtx, err error) {
 	}
 	for i, en := range fc.c.Asserts {
 		if assertHits[i] == 0 && len(fr.retStates) > 0 {
-			fail("contract %q of %s: checked at no return (case text or local names do not match the code)", en.Src, fc.key)
+			// the clause attaches to no return (case text or local names do not match the code any more): one failed
+			// obligation of that clause - reported by the properties that claim the clause, not by every property
+			// that has the function in scope
+			label := en.Label
+			if label == "" {
+				label = fmt.Sprintf("a%d", i+1)
+			}
+			fc.sc.cur = -1
+			o := &Obligation{Name: fc.oblName("post", label+".attach"), Func: fc.key, Kind: "post", Anchor: label + ".attach", Prefix: 0, Reach: "true", Cond: "false",
+				Desc: "the clause " + en.Src + " is checked at no return (its case text or the locals it names do not match the code)", script: fc.sc, Inputs: fc.inputs, Blk: -1}
+			fc.obls = append(fc.obls, o)
 		}
 	}
 	return fc, nil
